@@ -40,15 +40,8 @@ sub-package name, and is bound to a non-empty decoration -/
 def Plain (reg : Registry) (n : Bytes) : Prop :=
   NoDot n ∧ goLower n ∉ reservedNames ∧ reg.named n ≠ emptyDecoration
 
-/-- the wrapper `auto.Wrap` builds for a resolved format (`X.Wrap(t)`, plus `SetDecorationNamed`
-for texttable) -/
-def Format.wrapper (f : Format) (core : Nat) : Wrapper :=
-  match f with
-  | .csv => { kind := .csv, core := core }
-  | .html => { kind := .html, core := core }
-  | .markdown => { kind := .markdown, core := core }
-  | .json => { kind := .json, core := core }
-  | .text d => { kind := .text, core := core, decor := d }
+-- `Format.wrapper` (the wrapper `auto.Wrap` builds for a resolved format) lives in Model/Render.lean:
+-- the correspondence driver builds its `autowrap` wrappers with the same definition.
 
 /-- `ListStyles` is sorted (`bytesLt`-nondecreasing), contains the four non-text renderers and every
 registered decoration name, and nothing else; it is strictly increasing (duplicate-free) unless a
